@@ -1,14 +1,15 @@
 (** C06 — symbolic evaluation is sound substitution.  Property theorems only.
     Proved (model EvalAbs.eval_expr, tied to eval_abs.eval_expr by exact-output correspondence): for register-only states (no
     symbolic memory cell has been written), whose bindings map non-terminal identifiers to well-formed expressions of their width,
-    and for every expression of fragments 1-4 (C05 with ac = false: slices, the shifts << >> a>>, == and parity included; no concatenations) whose identifiers conform to a name signature (width, is_reg, is_term):
+    and for every expression of the C05 well-formedness predicate with ac = false (everything C05 covers — operators, slices, shifts, rotations, ==, parity — except concatenations) whose identifiers conform to a name signature (width, is_reg, is_term):
     every result eval_expr returns is well formed, has the width of the argument, and — in EVERY concrete state rho, memory and
     operator interpretation — evaluates to the value of the argument in the state where each bound identifier takes the value of
     its binding in rho.  Terminal identifiers are never substituted; memory cells are read at the substituted address.
     The proof goes through the simplifier (C05 theorem), constant evaluation of operators, conditionals with constant and
     symbolic conditions, and the empty-memory path of the overlapping-read search.
     NOT proved: states with written memory cells (overlap logic: decided by the history correspondence of C07),
-    concatenations, rotates and the operators outside the model (XNotModelled), fuel exhaustion. *)
+    concatenations (eval_ExprCompose re-evaluates an already evaluated condition; see DESIGN.md section 9) and the operators outside the
+    model (XNotModelled), fuel exhaustion. *)
 From Coq Require Import ZArith List Bool String.
 From Mx Require Import Expr Simp SimpProofs EvalAbs EvalAbsProofs.
 Import ListNotations.
